@@ -36,7 +36,13 @@ META = {
     "level_note": "Pairwise consistency only (the anchor itself is checked against documented formulas by C02). Dense comparison for <= 6 "
                   "wires (+ <= 3 work wires); larger instances are flag-checked only. Classes whose only matrix source is the "
                   "decomposition (has_matrix False) have no independent second path for decomp.matrix and are counted separately. "
-                  "Fractional Pow instances only with base eigenphases strictly inside (-pi, pi). Trusts numpy/scipy and pv/ref.",
+                  "Fractional Pow instances only with base eigenphases strictly inside (-pi, pi). Trusts numpy/scipy and pv/ref. "
+                  "Not implemented from the design: broadcast instances are only checked on the dense path (matrix shape, wire-order "
+                  "embedding, slice == un-batched operator), not on sparse/eigvals/decomposition (scipy sparse has no batch dimension, "
+                  "several decompositions document that they do not broadcast); decompositions that allocate dynamic wires or contain "
+                  "mid-circuit measurements are skipped, decompositions whose gates hide work wires are counted as inconclusive cases; "
+                  "ParametrizedEvolution (jitted ODE matrix, ~80 s) is instantiated in the thorough tier only; diagonalizing gates are "
+                  "only demanded for normal matrices (O = U S U+), eig-based QubitUnitary gates with tolerance 1e-5.",
     "shards": {"quick": 4, "thorough": 16},
     "budget_s": {"quick": 150, "thorough": 300},
     "min_evals": {"quick": 2500, "thorough": 40000},
